@@ -157,6 +157,12 @@ func c04Spaces(c *fw.Ctx) {
 				emit(func(r *fw.R) { c04Check(r, m) })
 			})
 		})
+	c.Space("root", "question + one record of every name-bearing type + two NS + an OPT over the names {root, example, a.example} in every position (root questions, root-owned records, the root as RDATA name): the root is never a pointer target nor written as a pointer, the compressed message is never longer than the uncompressed one; non-trivial: ≥1 pointer", true,
+		func(emit func(func(*fw.R))) {
+			genRoot(true, func(m *wire.Msg) {
+				emit(func(r *fw.R) { c04Check(r, m) })
+			})
+		})
 	c.Space("after-failed-pack", "state carried between calls: before each message of a 600-message subset of 'pairs' one of 6 messages is packed that FAILS after some names have been written (non-FQDN RDATA name, 64-octet label, oversize TXT, RDATA > 65535, bad NSEC bitmap order, nil record), with and without compression, then the message under test is packed and checked as usual; non-trivial: ≥1 pointer", true,
 		func(emit func(func(*fw.R))) {
 			bad := func(k int) *dns.Msg {
